@@ -1036,7 +1036,9 @@ pub fn check(prop: Prop, tier: Tier) -> i32 {
         return 2;
     }
     // self-test: the driver must notice a synthetic allocation / panic / endless iterator
-    let st = selftest(prop);
+    // the self-test runs the library too: on a tree that panics there it counts as failed (a verdict, if there is one,
+    // takes precedence over it)
+    let st = catch(|| selftest(prop)).unwrap_or((1, 0));
     let (id, rule, level) = match prop {
         Prop::C07 => (
             "C07",
